@@ -34,7 +34,7 @@ theorem bit_getLsbD (s i : Nat) : (bit s).getLsbD i = decide (i = s ∧ i < 64) 
 
 /-! ### piece codes -/
 
-theorem validPiece_lt {pc : Nat} (h : validPiece pc = true) : pc < 16 := by
+theorem validPiece_lt_B {pc : Nat} (h : validPiece pc = true) : pc < 16 := by
   unfold validPiece pieceColor at h
   simp [Nat.shiftRight_eq_div_pow] at h
   omega
@@ -45,7 +45,7 @@ theorem validPiece_cases_aux : ∀ pc, pc < 16 → validPiece pc = true →
 
 theorem validPiece_cases {pc : Nat} (h : validPiece pc = true) :
     pieceColor pc < 2 ∧ pieceType pc < 6 ∧ pc = newPiece (pieceColor pc) (pieceType pc) ∧ pc ≠ 0 :=
-  validPiece_cases_aux pc (validPiece_lt h) h
+  validPiece_cases_aux pc (validPiece_lt_B h) h
 
 theorem newPiece_facts_aux : ∀ c, c < 2 → ∀ t, t < 6 →
     pieceColor (newPiece c t) = c ∧ pieceType (newPiece c t) = t ∧ validPiece (newPiece c t) = true := by
